@@ -39,7 +39,31 @@ type EncodeOptions struct {
 //
 // The behavior of the encoder can be customized by setting fields in the EncodeOptions struct before calling this method.
 func (cfg EncodeOptions) Encode(n datamodel.Node, w io.Writer) error {
-	return Marshal(n, json.NewEncoder(w, json.EncodeOptions{}), cfg)
+	ew := &errWriter{w: w}
+	if err := Marshal(n, json.NewEncoder(ew, json.EncodeOptions{}), cfg); err != nil {
+		return err
+	}
+	return ew.err
+}
+
+// errWriter remembers the first error of the underlying writer.
+// The refmt JSON encoder does not report write errors, so without this
+// an encode onto a failing writer would appear to succeed.
+type errWriter struct {
+	w   io.Writer
+	err error
+}
+
+func (ew *errWriter) Write(p []byte) (int, error) {
+	if ew.err != nil {
+		return 0, ew.err
+	}
+	n, err := ew.w.Write(p)
+	if err == nil && n < len(p) {
+		err = io.ErrShortWrite
+	}
+	ew.err = err
+	return n, err
 }
 
 // Future work: we would like to remove the Marshal function,
